@@ -44,6 +44,8 @@ def gen_cases(rng, tier):
     gx = H.GenExt(rng)
     for i in range(700 if tier == 'quick' else 8000):
         yield {'tag': 'ext', 'script': gx.ext_script()}
+    for i in range(150 if tier == 'quick' else 2000):
+        yield {'tag': 'factory', 'script': gx.factory_script()}
     for s in big_lists(rng):
         yield {'tag': 'biglist', 'script': s}
     for s in keyword_symbols(rng):
